@@ -346,6 +346,10 @@ func cmdCheck(args []string) {
 		// a repository that no longer loads is reported as broken, not as a violation
 		os.Exit(2)
 	}
+	if why := preludeProbe(outDir); why != "" {
+		fmt.Fprintln(os.Stderr, "BROKEN: the prelude axioms are inconsistent:", why)
+		os.Exit(2)
+	}
 	rep := runProperty(E, *prop, cfg, *tier, seed)
 	rep.WallS = time.Since(start).Seconds()
 	code := rep.finish(E, *prop, cfg, *tier, seed)
@@ -451,4 +455,23 @@ func joinSort(toks []string) string {
 	s = strings.ReplaceAll(s, "( ", "(")
 	s = strings.ReplaceAll(s, " )", ")")
 	return s
+}
+
+// preludeProbe: vacuity guard on the axioms. The prelude together with spec/prelude_probe.smt2 (ground
+// terms with unconstrained and adversarial arguments for every axiomatised function) must not be unsat.
+func preludeProbe(outDir string) string {
+	pb, err1 := os.ReadFile(filepath.Join(verifDir, "spec", "prelude.smt2"))
+	qb, err2 := os.ReadFile(filepath.Join(verifDir, "spec", "prelude_probe.smt2"))
+	if err1 != nil || err2 != nil {
+		return "prelude or probe file missing"
+	}
+	f := filepath.Join(outDir, "prelude_probe.smt2")
+	writeFile(f, "(set-logic ALL)\n"+string(pb)+"\n"+string(qb))
+	for _, s := range []string{"z3-new", "z3-ematch"} {
+		res := runSolver(s, f, 4*time.Second)
+		if res.Status == "unsat" {
+			return s + " derives false from the prelude and the probe terms"
+		}
+	}
+	return ""
 }
